@@ -21,8 +21,8 @@ def fillers(n: int, dense: bool) -> list[bytes]:
     out = [bytes(n)]
     if n:
         out.append(bytes((i * 37 + 1) & 255 for i in range(n)))
+        out.append(b'\xff' * n)  # every flag bit set: the optional tails that a flag announces are asked for
         if dense:
-            out.append(b'\xff' * n)
             out.append(bytes([8] * n))  # plausible as a nested length everywhere
     return out
 
